@@ -29,9 +29,9 @@ RULE = ("case = random history (<= 8 quick / <= 16 thorough revisions, <= 3 bran
 CASES = {"quick": 32, "thorough": 800}
 BUDGET_S = {"quick": 45, "thorough": 780}
 MIN_EVALS = {"quick": 16, "thorough": 600}
-FLOORS = {"quick": {"present": 12, "testament": 40, "file_graph": 12, "check_clean": 12, "refetch_noop": 8, "refetch_i1": 8},
+FLOORS = {"quick": {"present": 12, "testament": 40, "file_graph": 12, "check_clean": 12, "refetch_noop": 8, "refetch_i1": 8, "generic_stream_merge_plans": 4},
           "thorough": {"present": 500, "testament": 1500, "file_graph": 300, "check_clean": 500, "refetch_noop": 400, "refetch_i1": 400,
-                       "smart_cases": 30}}
+                       "smart_cases": 30, "generic_stream_merge_plans": 60}}
 ASSUMPTIONS = [
     "ghost = parent id the generator never committed; the property demands nothing about ghosts",
     "cross-model pairs (plain root -> rich root) are compared with Testament v1 and StrictTestament 2.1 (neither attests the synthesised root entry) and the per-file graph without the root id",
@@ -40,6 +40,8 @@ ASSUMPTIONS = [
     "refetch monitor: lock directory traffic and rewriting branch files with identical bytes are allowed; any mutating transport op below .bzr/repository (other than lock/) is not",
     "ghost-fill scenario, cross-model pairs: Repository.check() is not consulted (the synthesised root text of a revision converted while its parent was "
     "still a ghost legitimately lacks that parent; check reports it as inconsistent once the ghost materialises - an artefact of the scenario, not of fetch)",
+    "every history gets a private 'asymmetric merge' extension (one side changes several files, the other one, merged back); for cross-serializer pairs one plan "
+    "per case is pinned to the generic stream path (vf+ / bzr:// transport or stacked target) with that merge and both its parents in one stream",
     "smart-server variants (thorough only) run client and server in one process over 127.0.0.1",
 ]
 
@@ -185,6 +187,10 @@ class Plan:
     pass
 
 
+class _NoOverlap(Exception):
+    pass
+
+
 def _run_entry(pl, tgt_url, src_url, first):
     """Perform the planned entry point once; target / source opened fresh from the given URLs."""
     from breezy.branch import Branch
@@ -251,6 +257,12 @@ def case(ctx):
                                  tags=(sfmt != "knit" and rng.random() < 0.5), names=gen.Names(ctx.tier))
     except (errors.BzrError, AttributeError) as e:  # AttributeError: gen.build_history names errors.PointlessCommit (lives in breezy.commit)
         ctx.discard("history-construction:%s" % type(e).__name__)
+    merged_branch = None
+    try:
+        merged_branch = _asymmetric_merge(ctx, rng, hist)
+        ctx.hist("history:asymmetric-merge:%s" % ("yes" if merged_branch else "no"))
+    except Exception as e:  # workload construction, not judged
+        ctx.hist("history:asymmetric-merge-refused:%s" % type(e).__name__)
     g = L.MGraph(hist)
     # the same revisions are signed in every source repository that holds them
     chosen = {r for r in sorted(g.pm) if rng.random() < 0.4}
@@ -260,12 +272,69 @@ def case(ctx):
             here = set(repo.all_revision_ids())
         L.sign_some(repo, chosen & here, rng, p=1.1)
     cands = [p for p in pairs if p[0] == sfmt]
+    # cross-serializer pairs: one plan of the case is pinned to the generic stream path (inventory-deltas substream; the local fast path
+    # InterDifferingSerializer only serves file:// to file://) with the asymmetric merge and both its parents travelling in one stream
+    cross = [p for p in cands if p[0] != p[1] and (p[0], p[1]) not in UNSUPPORTED]
     for k in range(PLANS[ctx.tier]):
         _sf, tfmt, stacked = cands[(ctx.index // len(srcs) + k) % len(cands)]
-        _one(ctx, rng, hist, g, sfmt, tfmt, stacked, len(chosen))
+        force = None
+        if k == 0 and cross and merged_branch is not None:
+            _sf, tfmt, stacked = cross[(ctx.index // len(srcs)) % len(cross)]
+            force = {"bname": merged_branch, "pre": rng.choice(["empty", "empty", "below-fork"]),
+                     "transport": "vf+" if quick or stacked else rng.choice(["vf+", "bzr-target", "bzr-source"]),
+                     "entry": rng.choice(["fetch", "pull", "push"])}
+            ctx.count("generic_stream_merge_plans")
+        _one(ctx, rng, hist, g, sfmt, tfmt, stacked, len(chosen), force)
     plain = [p for p in cands if not p[2] and (p[0], p[1]) not in UNSUPPORTED]
     if plain:
         _ghost_fill(ctx, rng, hist, g, sfmt, rng.choice(plain)[1])
+
+
+def _asymmetric_merge(ctx, rng, hist):
+    """Private extension of the history: a fork where one side changes several files and the other a single one, merged back
+    (usually small side into big side, so the smallest inventory delta of the merge is the one against its FIRST parent).
+    Returns the name of the branch holding the merge, or None."""
+    from breezy.commit import PointlessCommit
+    from breezy.workingtree import WorkingTree
+
+    names = gen.Names(ctx.tier)
+    big_name = rng.choice(sorted(hist.trees))
+    big = WorkingTree.open(hist.trees[big_name])
+    small_name = "bm"
+    small_path = os.path.join(hist.root, small_name)
+    big.branch.controldir.sprout(small_path)
+    hist.trees[small_name] = small_path
+    hist.log.append({"branch": small_name, "from": big_name})
+    small = WorkingTree.open(small_path)
+    fork = big.last_revision()
+    # big side: several files created/edited/renamed, in one or two commits
+    for _ in range(rng.randint(1, 2)):
+        gen.random_delta(rng, big, names, rng.randint(4, 7), {"mkfile": 5, "add": 8, "edit": 8, "rename": 3, "mkdir": 1, "chmod": 1}, hist.log)
+        try:
+            gen.commit(hist, big_name, big, rng)
+        except PointlessCommit:
+            pass
+    # small side: one change
+    gen.random_delta(rng, small, names, 1, {"edit": 6, "mkfile": 2, "add": 4, "chmod": 1}, hist.log)
+    try:
+        gen.commit(hist, small_name, small, rng)
+    except PointlessCommit:
+        return None
+    if big.last_revision() == fork or small.last_revision() == fork:
+        return None
+    into, other, into_name = (big, small, big_name) if rng.random() < 0.8 else (small, big, small_name)
+    with into.lock_write():
+        into.merge_from_branch(other.branch)
+    gen.resolve_all(into)
+    hist.log.append({"merge": "asymmetric", "into": into_name})
+    gen.commit(hist, into_name, into, rng)
+    if rng.random() < 0.4:
+        gen.random_delta(rng, into, names, rng.randint(1, 2), None, hist.log)
+        try:
+            gen.commit(hist, into_name, into, rng)
+        except PointlessCommit:
+            pass
+    return into_name
 
 
 def _ghost_fill(ctx, rng, hist, g, sfmt, tfmt):
@@ -318,7 +387,7 @@ def _ghost_fill(ctx, rng, hist, g, sfmt, tfmt):
     ctx.note(("ghost-fill", sfmt, tfmt, find_ghosts, _shape(g, g.ancestry(tipA), tipA)), nontrivial=True)
 
 
-def _one(ctx, rng, hist, g, sfmt, tfmt, stacked, signed):
+def _one(ctx, rng, hist, g, sfmt, tfmt, stacked, signed, force=None):
     from breezy import errors
     from breezy.branch import Branch
     from breezy.controldir import ControlDir
@@ -328,6 +397,8 @@ def _one(ctx, rng, hist, g, sfmt, tfmt, stacked, signed):
     same_model = _rich(sfmt) == _rich(tfmt)
     unsupported = (sfmt, tfmt) in UNSUPPORTED
     bname = rng.choice(sorted(hist.trees))
+    if force:
+        bname = force["bname"]
     src_path = hist.trees[bname]
     src_branch = Branch.open(src_path)
     tip = src_branch.last_revision()
@@ -338,6 +409,8 @@ def _one(ctx, rng, hist, g, sfmt, tfmt, stacked, signed):
     pl.req = tip if rng.random() < 0.65 else rng.choice(anc_tip)
     entries = ["fetch", "fetch", "pull", "push", "sprout"] + ([] if unsupported else ["fetch-limit"])
     pl.entry = rng.choice(entries)
+    if force:
+        pl.req, pl.entry = tip, force["entry"]
     pl.req_arg = pl.req
     if pl.entry in ("pull", "push", "fetch-limit") and pl.req == tip and rng.random() < 0.6:
         pl.req_arg = None
@@ -352,10 +425,16 @@ def _one(ctx, rng, hist, g, sfmt, tfmt, stacked, signed):
     pre = rng.choice(pres)
     transport = "local"
     r = rng.random()
-    if r < 0.3:
+    if r < (0.3 if sfmt == tfmt else 0.5):
         transport = "vf+"          # keeps InterDifferingSerializer out: the generic stream path converts
-    elif not quick and r < 0.55:
+    elif not quick and r < 0.7:
         transport = rng.choice(["bzr-target", "bzr-source"])
+    below_fork = False
+    if force:
+        transport = force["transport"]
+        pre, below_fork = ("empty", False) if force["pre"] == "empty" else ("partial", True)
+        fetch_all = False
+        pl.req_arg = pl.req if pl.entry == "fetch" else pl.req_arg
     root = ctx.tmp("c03")
     tgt_path = os.path.join(root, "tgt")
     base_path = os.path.join(root, "base")
@@ -405,6 +484,17 @@ def _one(ctx, rng, hist, g, sfmt, tfmt, stacked, signed):
         if pre in ("partial", "complete") and (not pl.entry == "sprout" or shared):
             if pre == "complete":
                 o_branch, o = src_branch, pl.req
+            elif below_fork:
+                # overlap strictly below the newest mainline merge: both its parents still travel in the stream under test
+                common = None
+                for m in g.lefthand(pl.req)[0]:
+                    ps = [p for p in g.pm[m] if not g.is_ghost(p)]
+                    if len(ps) > 1:
+                        common = set.intersection(*[g.ancestry(p) for p in ps])
+                        break
+                if not common:
+                    raise _NoOverlap()
+                o_branch, o = src_branch, rng.choice(sorted(common))
             else:
                 on = rng.choice(sorted(hist.trees))
                 o_branch = Branch.open(hist.trees[on])
@@ -418,6 +508,8 @@ def _one(ctx, rng, hist, g, sfmt, tfmt, stacked, signed):
                     raise
             else:
                 Repository.open(tgt_repo_path).fetch(o_branch.repository, revision_id=o)
+    except _NoOverlap:
+        pre = "empty"
     except errors.IncompatibleRepositories:
         if unsupported:
             ctx.hist("unsupported:refused:%s->%s" % (sfmt, tfmt))
